@@ -24,7 +24,7 @@ checks = {
          "Generated timings of mapping vs spawn with surrounding traffic."),
  "C06": ("exhaustive byte strings <=2 (<=3 thorough) per client channel + structure-aware mutation PBT of genuine messages (incl. an event with length-prefixed collections and a two-target trigger) + libFuzzer campaign (thorough); oracle: no panic/abort/hang (per-case watchdog), allocation bound, honest client still served, metamorphic: a strict prefix of a genuine message never reaches server logic", "4",
          "Enumerates a finite input space completely and searches beyond it with generated mutations; crash, allocation and serving oracles inside the target."),
- "C10": ("PBT with operational size measurement (shadow clients, no decoding) + generated delivery subsets over graphs of two relationship types (incl. mutual relations, server restarts); oracle: payload conservation, size clauses, group all-or-nothing", "4",
+ "C10": ("PBT with operational size measurement (shadow clients, no decoding) + generated delivery subsets over graphs of two relationship types (incl. mutual relations, server restarts); oracle: payload conservation, size clauses, group all-or-nothing; plus stateful PBT over whole sessions (split profile, loss, ack timeouts) with the per-entity same-tick invariant and convergence", "4",
          "Generated sizes around the splitting boundaries, evolving relationship graphs and delivery subsets."),
  "C11": ("stateful PBT: idle-silence and re-send oracles by message counts/lengths under generated ack loss/delay/junk, unauthorized peers, diverging real/virtual clocks", "4",
          "Generated acknowledgement patterns; counts and lengths only."),
